@@ -1,6 +1,6 @@
 """Case streams per property (DESIGN.md §4.1 generator). Everything derives from one random.Random(seed)."""
 import itertools, os, random
-from cases import Case, parse_cases, make_source, rand_sched, distinct_vals, KNOWN_KINDS, ALL_KINDS, MAXW
+from cases import Case, parse_cases, make_source, rand_sched, distinct_vals, rand_take, KNOWN_KINDS, ALL_KINDS, MAXW
 
 VERIF = os.path.dirname(os.path.dirname(os.path.abspath(__file__)))
 
@@ -72,7 +72,7 @@ def rand_case(rng, cid, prof):
                 sizes.append(0)
             if ch == "chunk":
                 nn = rng.choice(sizes)
-                ops.append("chunk %d %s" % (nn, rng.choice(["all", "all", "0", "1", str(rng.randint(0, nn + 1))])))
+                ops.append("chunk %d %s" % (nn, rand_take(rng, nn)))
             elif ch == "buf":
                 if not has_buf or rng.random() < 0.25:
                     nn = max(1, rng.choice(sizes)) if not P["zero"] else rng.choice(sizes)
@@ -80,7 +80,7 @@ def rand_case(rng, cid, prof):
                     if nn == 0:
                         break
                     has_buf = True
-                ops.append("bufnext %s" % rng.choice(["all", "all", "0", "1", "2"]))
+                ops.append("bufnext %s" % (rng.choice(["all", "all", "0", "1", "2"]) if rng.random() < 0.85 else "nth:%d" % rng.randint(0, 3)))
                 if rng.random() < 0.15:
                     ops.append("bufdrop")
                     has_buf = False
@@ -151,6 +151,31 @@ def half_stream(rng, pid, kinds=("iter", "iterref", "vec", "slice", "array")):
     return cases
 
 
+def nth_stream(rng, pid, kinds=("iter", "iterref", "vec", "slice", "array", "range")):
+    """chunks consumed through `Iterator::nth` (one-shot and buffered), alone and followed by more pulls"""
+    cases = []
+    i = 0
+    for kind in kinds:
+        for L in (1, 2, 4, 6):
+            for n in (1, 3, 4):
+                for K in (0, 1, 2, 3, 5):
+                    for style in range(3):
+                        c = make_source(rng, "%s-nth%d" % (pid, i), kind, L, hint=rng.choice(["exact", "inexact"]))
+                        if style == 0:
+                            c.threads = [["chunk %d nth:%d" % (n, K), "next", "chunk %d nth:0" % n]]
+                        elif style == 1:
+                            c.threads = [["bufnew %d" % n, "bufnext nth:%d" % K, "bufnext 1", "bufnext nth:%d" % K, "bufnext all"]]
+                        else:
+                            c.threads = [["chunk %d nth:%d" % (n, K)], ["bufnew %d" % n, "bufnext nth:%d" % K, "next"]]
+                            c.sched = rand_sched(rng, 2, 10)
+                        c.owner = rng.choice(["drop", "intoseq all"])
+                        if kind in ("slice", "iterref") and rng.random() < 0.4:
+                            c.adapt = rng.choice(["cloned", "copied"])
+                        cases.append(c)
+                        i += 1
+    return cases
+
+
 def pulls_stream(rng, tier, pid, extra=None, n_random=None, prof=None, exh=True):
     n_random = n_random if n_random is not None else (1500 if tier == "quick" else 60000)
     cases = []
@@ -197,10 +222,10 @@ def stream_for0(pid, tier, seed):
     defects = corpus(["defects.cases", "regress.cases"])
     big = tier != "quick"
     if pid in ("C01", "C02", "C04"):
-        return defects + pulls_stream(rng, tier, pid) + half_stream(rng, pid)
+        return defects + pulls_stream(rng, tier, pid) + half_stream(rng, pid) + nth_stream(rng, pid)
     if pid == "C03":
         cases = defects + pulls_stream(rng, tier, pid, prof=dict(loops=False, query=False, drain=0.2))
-        cases += half_stream(rng, pid)
+        cases += half_stream(rng, pid) + nth_stream(rng, pid)
         return cases
     if pid == "C05":
         cases = defects + pulls_stream(rng, tier, pid, prof=dict(nonfused=True), exh=False, n_random=800 if not big else 30000)
@@ -239,7 +264,10 @@ def stream_for0(pid, tier, seed):
         return cases
     if pid == "C06":
         cases = defects + pulls_stream(rng, tier, pid, prof=dict(skip=True), n_random=1200 if not big else 50000, exh=False)
-        progs = [[["next", "skip"], ["next", "next"]], [["skip"], ["chunk 2 all", "next"]], [["bufnew 2", "bufnext all", "skip"], ["next"]]]
+        progs = [[["next", "skip"], ["next", "next"]], [["skip"], ["chunk 2 all", "next"]], [["bufnew 2", "bufnext all", "skip"], ["next"]],
+                 # a pull in flight while another thread skips and then pulls again
+                 [["bufnew 2", "bufnext all"], ["skip", "next", "hasmore"]], [["chunk 2 all"], ["skip", "next", "hasmore"]],
+                 [["next"], ["skip", "chunk 2 all", "hasmore"]]]
         cases += exhaustive("C06-x2", small_bases(rng, progs, ["slice", "vec", "range", "iter"]), 2, 9 if not big else 12)
         # very long known-size sources: one or more skips, then pulls and queries
         j = 0
@@ -272,7 +300,7 @@ def stream_for0(pid, tier, seed):
     if pid in ("C08", "C15"):
         prof = dict(kinds=["vec", "array", "iter"], skip=True, lens=[0, 1, 2, 3, 5, 8], drain=0.3)
         cases = defects + pulls_stream(rng, tier, pid, prof=prof, n_random=1500 if not big else 60000, exh=False)
-        cases += half_stream(rng, pid, kinds=("iter", "vec", "array"))
+        cases += half_stream(rng, pid, kinds=("iter", "vec", "array")) + nth_stream(rng, pid, kinds=("iter", "vec", "array"))
         # every ending at every progress point, sequentially
         for kind in ["vec", "array", "iter"]:
             for n in [0, 1, 2, 5]:
